@@ -425,10 +425,24 @@ def check(src, rep):
                     add_loops(l.children)
             add_loops(loops)
             def lex_sink(esc, fnode=fnode, sink=sink):
-                # kind-level findings of the typed scan are kept only if the interpreter confirms the class (or could not run): it executes try/except,
-                # match and helper objects as written, the scan over-approximates them
-                if esc.cls in ("AttributeError", "TypeError", "KeyError", "IndexError") and world_und is None and esc.cls not in world_classes and not esc.origin.endswith(":raise"):
-                    return
+                # an attribute read that is written only inside try blocks catching AttributeError (EAFP probes) cannot let the class out
+                if esc.cls == "AttributeError" and ":." in esc.origin:
+                    attr_ = esc.origin.split(":.", 1)[1]
+                    reads_ = [n_ for n_ in ast.walk(fnode) if isinstance(n_, ast.Attribute) and n_.attr == attr_ and isinstance(n_.ctx, ast.Load)]
+
+                    def caught_at(n_):
+                        for t_ in ast.walk(fnode):
+                            if isinstance(t_, ast.Try) and any(n_ in list(ast.walk(b_)) for b_ in t_.body):
+                                names__ = [x__ for h_ in t_.handlers for x__ in ([ast.unparse(x_) for x_ in (h_.type.elts if isinstance(h_.type, ast.Tuple) else [h_.type])] if h_.type is not None else ["BaseException"])]
+                                if covered("AttributeError", names__):
+                                    return True
+                            if isinstance(t_, (ast.With, ast.AsyncWith)) and any(n_ in list(ast.walk(b_)) for b_ in t_.body):
+                                names__ = [ast.unparse(a_) for it_ in t_.items if isinstance(it_.context_expr, ast.Call) and ast.unparse(it_.context_expr.func).endswith("suppress") for a_ in it_.context_expr.args]
+                                if names__ and covered("AttributeError", names__):
+                                    return True
+                        return False
+                    if reads_ and all(caught_at(n_) for n_ in reads_):
+                        return
                 # a partial operation written inside a try whose handler names the class (or a base of it) does not let that class out
                 for t_ in ast.walk(fnode):
                     if isinstance(t_, ast.Try) and any(getattr(b_, "lineno", 0) <= esc.line <= getattr(b_, "end_lineno", 0) for b_ in t_.body):
@@ -618,6 +632,17 @@ def _scanner(rep, M, src):
                         hname = str(newv[1][1])
                         if returns_progress.get(hname.split(".")[-1]):
                             progressed = True
+                stuck = False
+                if not progressed:
+                    # positively stuck: every control variable of the loop test keeps its value (or provably does not grow) on this back edge
+                    vals_ = [(E.ev(ast.Name(id=c, ctx=ast.Load()), Path(), fr), p.store.get(("l", fr["id"], c))) for c in ctl if c not in ("self", "cls")]
+                    vals_ = [(e0, n0 if n0 is not None else e0) for e0, n0 in vals_ if e0[0] in ("l", "g", "p", "havoc", "c") or True]
+                    stuck = bool(vals_) and all(Order(p, E, f).ge(e0, n0) for e0, n0 in vals_) and not any(isinstance(x, ast.Call) for x in ast.walk(wl.test))
+                if not progressed and not stuck:
+                    conds = "; ".join(("" if pol else "not ") + show_sv(g)[:50] for g, pol, _ in p.guards)
+                    rep.undecide(f"R2 progress of the scanning loop at line {wl.lineno} of {getattr(node, 'name', fn.name)} is not proved on the path [{conds[:160]}] (loop controlled by something other than a scan position the prover follows)")
+                    und_loops = True
+                    continue
                 if not progressed:
                     bad += 1
                     conds = "; ".join(("" if pol else "not ") + show_sv(g)[:50] for g, pol, _ in p.guards)
